@@ -13,6 +13,20 @@ ALink == Go /\ \E c \in Comp, lp \in LinkPairs : SetLink(c, lp[2], lp[3], lp[4])
 ACopy == Go /\ \E c \in Base : Copy(c)
 NextB == ATemp \/ ARamp \/ ADim \/ ALink \/ ACopy
 McRamp == {60}
+\* which auxiliary density vectors the two components carry.  Exhaustive runs: 4 (quick), 2 (deep) combinations covering every set/unset case on both sides, or by kind.  Emission runs: one
+\* combination per kind pair (the choice never influences a transition), arranged so that component 1 of an expanding
+\* solid meets pin-only and detailed-only, and all four combinations occur on both sides; traces draw all 16.
+A(d, q) == [d |-> d, p |-> q]
+McAuxAll(k) == {<<a, b>> : a, b \in AuxAll}
+McAuxFour(k) == {<<A(FALSE, FALSE), A(TRUE, TRUE)>>, <<A(FALSE, TRUE), A(TRUE, FALSE)>>, <<A(TRUE, FALSE), A(FALSE, TRUE)>>, <<A(TRUE, TRUE), A(FALSE, FALSE)>>}
+McAuxTwo(k)  == {<<A(FALSE, TRUE), A(TRUE, FALSE)>>, <<A(TRUE, TRUE), A(FALSE, FALSE)>>}
+McAuxByKind(k) ==
+    CASE k = <<"solid", "solid">> -> {<<A(FALSE, TRUE), A(TRUE, TRUE)>>}
+      [] k = <<"solid", "fluid">> -> {<<A(TRUE, FALSE), A(FALSE, TRUE)>>}
+      [] k[1] = "fluid"           -> {<<A(FALSE, TRUE), A(FALSE, FALSE)>>}
+      [] k[1] = "inert"           -> {<<A(TRUE, TRUE), A(TRUE, FALSE)>>}
+      [] k[1] = "custom"          -> {<<A(FALSE, TRUE), A(TRUE, FALSE)>>}
+      [] OTHER                    -> {<<A(FALSE, FALSE), A(FALSE, TRUE)>>}
 Bound == TLCGet("level") <= MaxLevel + 1
 View  == state
 \* component 1 is the shape/material under test, component 2 a partner whose two lengths are unconstrained:
@@ -36,7 +50,8 @@ McTempsTwo   == {<<1, 2, 1, 3>>, <<2, 1, 2, 2>>}
 DimIdx(d)  == CASE d = "e1" -> 1 [] d = "e2" -> 2 [] d = "n" -> 3
 KindIdx(k) == CASE k = "solid" -> 1 [] k = "inert" -> 2 [] k = "fluid" -> 3 [] k = "void" -> 4 [] k = "custom" -> 5
 EntryKey(x) == IF x.k = "v" THEN <<0, x.bc, DimIdx(x.bd), x.b, x.e>> ELSE <<1, x.c, DimIdx(x.d), 0, 0>>
-CompKey(c) == <<KindIdx(kind[c]), Tin[c], T0[c], T[c], nd[c]>> \o EntryKey(p[c]["e1"]) \o EntryKey(p[c]["e2"]) \o EntryKey(p[c]["n"])
+B(x) == IF x THEN 1 ELSE 0
+CompKey(c) == <<KindIdx(kind[c]), Tin[c], T0[c], T[c], nd[c], an[c], B(aux[c].d), B(aux[c].p)>> \o EntryKey(p[c]["e1"]) \o EntryKey(p[c]["e2"]) \o EntryKey(p[c]["n"])
 Key == <<src>> \o CompKey(1) \o CompKey(2) \o CompKey(3)
 \* one line per explored edge and one line per distinct state (with every observable)
 Emit  == PrintT(ToJson([lvl |-> TLCGet("level"), from |-> Key, act |-> act', to |-> Key', err |-> err']))
